@@ -32,16 +32,40 @@ LEVEL_TEXT = ("Lean 4 theorems (all networks, unbounded) about an executable mod
               "sigma-apr/stdev, strict comparison; C14-F1 = 'coincides with the positional misclosure iff the factor is 1'), "
               "state after the exclusions = revised input with the excluded items deleted (deletion defined on the input, "
               "including rows/columns of correlated covariance blocks; stable), and the assembly loop / covariance blocks "
-              "read that view only.  The hand-written rest is tied to the C++ by in-process differential correspondence "
-              "(GKFparser -> LocalNetwork vs model on the same encoded network, including the homogenised vector) and "
+              "read that view only.  "
+              "Rounds 7-8: what the absolute-term stage makes passive is EXACTLY the rows of the table OutlyingAbsoluteTerms "
+              "prints, and every such observation is in removed_obs_ (C14_reported_abs); the stage is quiet on the deleted input "
+              "for uncorrelated clusters (C14_abs_stage_stable_uncorrelated; correlated blocks: under the stated hypothesis on the "
+              "new homogenised vector only); the revision rule of this model and the one inside the executed model of "
+              "project_equations() (PE, C05/C08/C01) are the same rule (C14_revision_is_project_equations_revision, "
+              "C14_requirement_tables_agree); and 'results' is now a theorem about the EXECUTED model, not about an abstract "
+              "step/adjust: if project_equations() succeeds on a network, then on the network from which the observations "
+              "it left passive are deleted (rows/columns of the band covariance matrices with them: activeCov of an active "
+              "block is that block, proved by extensionality of the packed storage, no hypothesis) and the points "
+              "singular_coords removed are unused, with ARBITRARY stale index fields, it succeeds in one inner call, revises "
+              "nothing more, removes no point, numbers the unknowns identically (same unknowns_ table), and for EVERY "
+              "algorithm the network-level solve (C01's facade: envelope, Cholesky, GSO, SVD) returns the same exception or "
+              "the same answer field by field (x, residuals of the active observations, pvv, defect, cofactors) "
+              "(C14_pe_solution_equals_deletion_partial; kernel-evaluated on a network with a tridiagonal covariance block "
+              "and one excluded observation).  The deletion of that theorem is position-stable (a removed point / an "
+              "emptied cluster stays as an entry nothing refers to); physically dropping them renames the unknowns, and "
+              "that renaming invariance is NOT proved (hence _partial).  "
+              "The hand-written rest is tied to the C++ by in-process differential correspondence "
+              "(GKFparser -> LocalNetwork vs model on the same encoded network, including the homogenised vector, the printed "
+              "rows of the absolute-term table, and Lean's deleteItems against the oracle's deletion) and "
               "checked end-to-end on gama-local (result = result of the input with the excluded items deleted, also for "
               "correlated clusters; every exclusion visible in --text).")
 LEVEL_NOTE = ("Trusted: Lean kernel; the statements in Props/C14.lean including the hand-written specification tables "
               "(which flags each observation type needs, the positional-misclosure formulas); the translator "
               "tools/gen/c14_revision.py (validated by the correspondence); harness, generator, comparator. "
-              "That gama's linearisation visitor and solvers are functions of the proved view (an instance of the "
-              "assembly loop `assemble`, C05/C01) is a named hypothesis of C14_results_equal_deletion and is checked here "
-              "numerically only.")
+              "C14_results_equal_deletion (abstract step/adjust) is kept; its hypothesis 'the solvers are functions of the view' "
+              "is discharged for the executed models PE.projectEquations + Ls.Net.netSolve by "
+              "C14_pe_solution_equals_deletion_partial, whose models are tied to the C++ by C05/C08/C01's streams (drv_pe, "
+              "drv_net), not by C14's.  ORACLE-ONLY in C14: the absolute-term stage inside the program flow "
+              "(vybocujici_abscl_, C14-F1 is a known finding there: the tree tests the homogenised entry, the documentation "
+              "promises the positional misclosure; and for correlated blocks the homogenised vector of the deleted input is "
+              "not a sub-vector of the original), physical deletion of <point>/<obs> elements (id-based deleteItems, "
+              "renaming of the unknowns), IEEE rounding, all algorithms x tol-abs on gama-local.")
 TECHNIQUE = "Lean 4 proof over a model partly regenerated from the source (translator) + model/implementation correspondence + end-to-end oracle"
 TRUSTED = ["tools/gen/c14_revision.py: regex/mini-parser translator of local_revision.{h,cpp}, TestAbsTermVisitor and the "
            "StandPoint loop of revision_observations (interpreter TStmt.run / TCond.eval in Model/ReviseTypes.lean: std::set as a "
@@ -53,8 +77,15 @@ MODELLED = ["removals for numerical reasons (singular_coords, huge covariances i
             "the vectors rhs_ and b (linearisation, homogenisation by the Cholesky factor of the weights) are inputs of "
             "the absolute-term model (C05/C10); for networks without correlations the model's homogenisation "
             "(homDiag: b = rhs / sqrt(stdev^2/m0^2)) is compared with the member b of the C++ on every case",
-            "stability of the absolute-term stage on the deleted input (its rhs/b are those of the kept observations) is "
-            "not proved; for correlated blocks b of the deleted input is not a sub-vector of the original b (C14-F1)",
+            "stability of the absolute-term stage on the deleted input is proved for uncorrelated clusters "
+            "(C14_abs_stage_stable_uncorrelated) and under a hypothesis on the new homogenised vector otherwise; for correlated "
+            "blocks b of the deleted input is not a sub-vector of the original b (C14-F1) — counted by the oracle, not proved",
+            "the executed model of project_equations() (Model/ProjectEquations.lean, owned by C05/C08/C01) names points and "
+            "clusters by POSITION: C14's solution theorem deletes observations position-stably (RevPE.delObs) and keeps "
+            "removed points as unused entries; id-based physical deletion (Rev.deleteItems) is proved at the level of the "
+            "views only and executed by drv_revise (op del) against the oracle's deletion",
+            "PE.Net describes a network after revision_points() (hxy = hz = true in RevPE.netOf); a Direction lives in a "
+            "StandPoint cluster (DirInStand, C++ constructor invariant, necessary: example peBad)",
             "PD[m->to()] in test_abs_term inserts an empty point \"\" into PointData for X, Y, Z observations (not modelled; unused point)",
             "tst_* flag cascade (C04): the model's revise is the forced re-run"]
 ASSUMPTIONS = ["IEEE rounding is not modelled: the absolute-term theorem is about the exact comparison the code performs; "
